@@ -173,7 +173,23 @@ def _run_sub_shard(check: Check, sub: SubCheck, tier: str, seed: int, shard: int
             best["case"], best["viol"], best["hash"] = case, unknown, case_hash(case)
             raise _Found(unknown[0].msg)
 
-    if sub.enumerate_cases is not None:
+    # regression tier: saved cases (shrunk failures of earlier defects / seeded changes) are replayed first, library bypassed
+    if shard == 0:
+        for f in sorted((ROOT / "regressions" / check.pid).glob("*.json")):
+            try:
+                data = json.loads(f.read_text())
+            except Exception:  # noqa: BLE001
+                continue
+            if data.get("sub") != sub.name:
+                continue
+            unknown = evaluate(data["case"])
+            stats["classes"]["regression-replays"] = stats["classes"].get("regression-replays", 0) + 1
+            if unknown and best["case"] is None:
+                best["case"], best["viol"] = data["case"], unknown
+
+    if best["case"] is not None:
+        pass
+    elif sub.enumerate_cases is not None:
         for case in sub.enumerate_cases(tier, shard, nshards):
             unknown = evaluate(case)
             if unknown:
